@@ -81,10 +81,14 @@ def run(tier):
         for m in re.finditer(r"\bunsafe\b", src):
             toks += 1
             where.append(os.path.basename(f))
-    p = subprocess.run(["cargo", "build", "--offline", "--target-dir", os.path.join(vlib.HARNESS, "target-sendsync")],
-                       cwd=os.path.join(vlib.HARNESS, "sendsync"), capture_output=True, text=True, env=dict(os.environ, CARGO_NET_OFFLINE="true"))
-    ss_ok = p.returncode == 0
-    ss_err = "\n".join(l for l in p.stderr.splitlines() if l.startswith("error"))[:600]
+    # the assertions are compiled under BOTH feature sets of the library (std and no_std): an auto trait can differ between them
+    ss_ok, ss_err = True, ""
+    for extra in ([], ["--no-default-features"]):
+        p = subprocess.run(["cargo", "build", "--offline", "--target-dir", os.path.join(vlib.HARNESS, "target-sendsync")] + extra,
+                           cwd=os.path.join(vlib.HARNESS, "sendsync"), capture_output=True, text=True, env=dict(os.environ, CARGO_NET_OFFLINE="true"))
+        if p.returncode != 0:
+            ss_ok = False
+            ss_err += ("[%s] " % (" ".join(extra) or "default features")) + "\n".join(l for l in p.stderr.splitlines() if l.startswith("error"))[:600]
     obs.append({"kind": "static", "forbid_attribute": forbid, "unsafe_tokens": toks, "sendsync_compiles": ss_ok})
     opath = os.path.join(d, "obs.ndjson")
     vlib.write_ndjson(opath, obs)
